@@ -12,37 +12,37 @@ except Exception:      # pragma: no cover
 
 
 def guarded_check(solver, timeout_ms):
-    """solver.check() with a hard wall-clock guard: z3's own timeout is not always honoured
-    by the sequence solver, so a watchdog interrupts the context"""
-    done = []
+    """solver.check() with a hard wall-clock guard: z3's own timeout is not always honoured by the
+    sequence solver, so a watchdog thread interrupts the context.  The interrupt is only ever sent
+    while the check is running (lock), and after one was sent the context's cancel flag is cleared
+    by a throw-away check before anything else touches the context."""
+    lock = threading.Lock()
+    state = {"running": True, "fired": False}
 
     def fire():
-        if not done:
-            solver.ctx.interrupt()
+        with lock:
+            if state["running"]:
+                state["fired"] = True
+                solver.ctx.interrupt()
 
     t = threading.Timer(timeout_ms / 1000.0 + 1.0, fire)
     t.daemon = True
     t.start()
     try:
-        return solver.check()
-    except z3.Z3Exception:
-        return z3.unknown
+        try:
+            r = solver.check()
+        except z3.Z3Exception:
+            r = z3.unknown
     finally:
-        done.append(1)
+        with lock:
+            state["running"] = False
         t.cancel()
-
-
-def _has_quantifier(e):
-    stack, seen = [e], set()
-    while stack:
-        x = stack.pop()
-        if x.get_id() in seen:
-            continue
-        seen.add(x.get_id())
-        if z3.is_quantifier(x):
-            return True
-        stack.extend(x.children())
-    return False
+    if state["fired"]:
+        try:
+            z3.Solver(ctx=solver.ctx).check()      # resets the context's cancellation state
+        except z3.Z3Exception:
+            pass
+    return r
 
 
 class PathEnd(Exception):
